@@ -195,7 +195,10 @@ fn culprit(code: &[u8]) -> String {
         let b = code[end];
         let next = if (0x60..=0x7f).contains(&b) { end + 1 + (b - 0x5f) as usize } else { end + 1 };
         let next = next.min(code.len());
-        let prefix = &code[..next];
+        // the prefix is padded with STOPs to the original length so that CODESIZE keeps its value
+        let mut padded = code[..next].to_vec();
+        padded.resize(code.len(), 0x00);
+        let prefix = &padded[..];
         let x = explore(prefix, true, &Limits::default());
         if let (true, VmRun::Ran(o)) = (usable(&x) && x.paths.len() == 1, run_vm(prefix, sle::vm::Config::default(), lazy())) {
             let offs = all_offsets(&x);
@@ -219,7 +222,9 @@ fn culprit(code: &[u8]) -> String {
                         x => format!("op{x:02x}"),
                     });
                 // operand class from the reference stack just before this instruction
-                let before = explore(&code[..end], true, &Limits::default());
+                let mut before_code = code[..end].to_vec();
+                before_code.resize(code.len(), 0x00);
+                let before = explore(&before_code, true, &Limits::default());
                 let stack: Vec<U> = before
                     .paths
                     .first()
